@@ -36,9 +36,12 @@ def main():
         o = json.loads(vlib.harness(hb, ["see", p, ev]))
         if o["positions"] == 0:
             return o, None, ev, kind
-        t = vlib.tlc("Trace_See", env={"TRACE": ev}, timeout=3400, xmx="3g")
+        # the symmetry reduction of the oracle (See!Picks) is compared with the unreduced swap list wherever that finishes
+        t = vlib.tlc("Trace_See", env={"TRACE": ev, "SEE_FULL": "0" if kind in ("swarm", "stack") else "1"}, timeout=3400, xmx="3g")
         if t.error or not t.stats("see"):
             raise vlib.ToolError("Trace_See: " + (t.error or t.stdout[-1500:]))
+        if t.viols("ORACLE"):
+            raise vlib.ToolError("See!Picks changes the value set of the swap list (specification error): %s" % t.viols("ORACLE")[0])
         if t.viols("TRACE"):
             raise vlib.ToolError("harness mirror disagrees with Chess!Mirror: %s" % t.viols("TRACE")[0])
         return o, t, ev, kind
